@@ -353,6 +353,25 @@ fn cbor_docs() -> Vec<Vec<u8>> {
     vec![d1, d2, d3]
 }
 
+/// Files whose first bytes look like something else (compressed data, archives, executables,
+/// scripts): content sniffing must not make jaq call a helper program or open anything.
+fn magic_docs() -> Vec<Vec<u8>> {
+    let tail = b"{\"a\": \"/@ROOT/honey/secret.txt\"}\n".to_vec();
+    let heads: [&[u8]; 10] = [
+        &[0x1f, 0x8b, 0x08, 0x00, 0, 0, 0, 0, 0, 3],
+        b"PK\x03\x04\x14\x00",
+        b"BZh91AY&SY",
+        &[0xfd, b'7', b'z', b'X', b'Z', 0x00],
+        &[0x28, 0xb5, 0x2f, 0xfd],
+        b"\x7fELF\x02\x01\x01",
+        b"#!/bin/sh\ntouch /@ROOT/honey/pwned\n",
+        b"%PDF-1.4\n",
+        b"SQLite format 3\x00",
+        &[0xef, 0xbb, 0xbf],
+    ];
+    heads.iter().map(|h| h.iter().copied().chain(tail.iter().copied()).collect()).collect()
+}
+
 fn base_files() -> Vec<FileSpec> {
     vec![
         FileSpec::dir(CWD),
@@ -382,10 +401,15 @@ fn base_env(rng: &mut Rng) -> Vec<(String, String)> {
 }
 
 fn call_expr(name: &str, arity: usize, rng: &mut Rng, nh: usize) -> String {
-    let input = format!("$h{}", rng.usize(nh));
+    let input = match rng.usize(8) {
+        0 => "$hobj".to_string(),
+        1 => "[$hobj, $h0]".to_string(),
+        _ => format!("$h{}", rng.usize(nh)),
+    };
     let args: Vec<String> = (0..arity)
-        .map(|_| match rng.usize(6) {
+        .map(|_| match rng.usize(8) {
             0 => "$doc".to_string(),
+            1 => "$hobj".to_string(),
             _ => format!("$h{}", rng.usize(nh)),
         })
         .collect();
@@ -459,6 +483,9 @@ pub fn gen_case(rng: &mut Rng, filters: &[(String, usize)]) -> Case {
         for x in cbor_docs() {
             d.push(("cbor", x));
         }
+        for x in magic_docs() {
+            d.push((*rng.pick(&["json", "yaml", "cbor", "toml", "csv", "raw"]), x));
+        }
         d
     };
     match kind {
@@ -474,6 +501,12 @@ pub fn gen_case(rng: &mut Rng, filters: &[(String, usize)]) -> Case {
             files.push(FileSpec::file("w/doc.txt", doc.clone(), 0o644));
             allowed.push("w/doc.txt".to_string());
             argv.extend(["--rawfile".to_string(), "doc".to_string(), "doc.txt".to_string()]);
+            // structured hostile values: a filter that takes an object or array of options
+            argv.extend([
+                "--argjson".to_string(),
+                "hobj".to_string(),
+                "{\"path\": \"/@ROOT/honey/secret.txt\", \"file\": \"/@ROOT/honey/newfile\", \"url\": \"file:///@ROOT/honey/secret.txt\", \"cmd\": [\"touch\", \"/@ROOT/honey/pwned\"], \"search\": \"/@ROOT/honey\", \"include\": \"mod\"}".to_string(),
+            ]);
             argv_prefix = argv.clone();
             let n = 40 + rng.usize(30);
             for _ in 0..n {
@@ -509,7 +542,23 @@ pub fn gen_case(rng: &mut Rng, filters: &[(String, usize)]) -> Case {
             if !to.is_empty() {
                 argv.extend(["--to".to_string(), to.to_string()]);
             }
-            match rng.usize(3) {
+            match rng.usize(5) {
+                3 => {
+                    // as the second input file (read after the filter has already run) under a
+                    // name that suggests compression
+                    files.push(FileSpec::file("w/first.json", "{\"a\": 1}\n", 0o644));
+                    let name = *rng.pick(&["second.json", "second.json.gz", "second.gz", "second", "second.zip"]);
+                    files.push(FileSpec::file(format!("w/{name}"), doc, 0o644));
+                    allowed.push("w/first.json".to_string());
+                    allowed.push(format!("w/{name}"));
+                    argv.extend([filter.to_string(), "first.json".to_string(), name.to_string()]);
+                }
+                4 => {
+                    files.push(FileSpec::file("w/blob.bin", doc, 0o644));
+                    allowed.push("w/blob.bin".to_string());
+                    let opt = *rng.pick(&["--rawfile", "--slurpfile"]);
+                    argv.extend(["-n".to_string(), opt.to_string(), "x".to_string(), "blob.bin".to_string(), "$x | length".to_string()]);
+                }
                 0 => {
                     // as a file with a telling extension
                     let name = format!("in.{}", if fmt == "yaml" && rng.chance(1, 2) { "yml" } else { fmt });
@@ -537,7 +586,7 @@ pub fn gen_case(rng: &mut Rng, filters: &[(String, usize)]) -> Case {
                 allowed.push(p.to_string());
             }
             let (name, arity) = rng.pick(filters).clone();
-            let call = if name.starts_with("halt") { "0".to_string() } else { call_expr(&name, arity, rng, 1).replace("$doc", "$h0") };
+            let call = if name.starts_with("halt") { "0".to_string() } else { call_expr(&name, arity, rng, 1).replace("$doc", "$h0").replace("$hobj", "$h0") };
             argv.extend([
                 "-c".to_string(),
                 "-L".to_string(),
@@ -751,7 +800,7 @@ pub fn check(cfg: &Cfg) -> Result<i32, Harness> {
         coverage: json!({
             "evaluations": evaluations,
             "distinct_nontrivial": keys.len(),
-            "rule": "each run is one process of the real binary in a world with honeypot files (paths that occur only in data and filter arguments). natives: a batch of 40-70 calls `try (limit(3; $hI | NAME($hJ; ...)) | 0) catch 1` over the filters discovered in the tree at run time (library natives, natives found in jaq/src/*.rs except repl, all jq-coded definitions) with path-, URL- and command-like strings and hostile documents as input and arguments, plus three calls per batch aimed at the time-zone look-up (zone names and formats that traverse out of the database towards a honeypot) (a batch that does not exit 0 is re-run call by call); decoder: hostile XML (external entities, SYSTEM ids, xinclude, PIs), YAML (language tags, !include, merge keys, aliases), CBOR (tags 24/32/55799), TOML, CSV/TSV, JSON documents through files, stdin and from*/to* filters with every --to; module: include/import/data import from -L (allowed reads are exercised); inplace: -i (documented exception). One in five native batches runs with the time-zone database unreadable. Policy over the complete system-call history: no network/process/kernel call, no file-system mutation outside the -i exception, no access of any kind to a honeypot, no open/stat of a path the invocation does not name (start-up set measured with `jaq -n empty`, time-zone database read-only), unchanged file tree afterwards. distinct = distinct called filters (natives) plus distinct command lines (other kinds).",
+            "rule": "each run is one process of the real binary in a world with honeypot files (paths that occur only in data and filter arguments). natives: a batch of 40-70 calls `try (limit(3; $hI | NAME($hJ; ...)) | 0) catch 1` over the filters discovered in the tree at run time (library natives, natives found in jaq/src/*.rs except repl, all jq-coded definitions) with path-, URL- and command-like strings and hostile documents as input and arguments, plus three calls per batch aimed at the time-zone look-up (zone names and formats that traverse out of the database towards a honeypot) (a batch that does not exit 0 is re-run call by call); decoder: hostile XML (external entities, SYSTEM ids, xinclude, PIs), YAML (language tags, !include, merge keys, aliases), CBOR (tags 24/32/55799), TOML, CSV/TSV, JSON documents and files that begin with the magic numbers of compressed data, archives, executables and scripts, through files (also as second input file, --rawfile, --slurpfile, under misleading names), stdin and from*/to* filters with every --to; module: include/import/data import from -L (allowed reads are exercised); inplace: -i (documented exception). One in five native batches runs with the time-zone database unreadable. Policy over the complete system-call history: no network/process/kernel call, no file-system mutation outside the -i exception, no access of any kind to a honeypot, no open/stat of a path the invocation does not name (start-up set measured with `jaq -n empty`, time-zone database read-only), unchanged file tree afterwards. distinct = distinct called filters (natives) plus distinct command lines (other kinds).",
             "filters_discovered": filters.len(),
             "runs_by_kind": pick("runs:"),
             "faults_fired": pick("fired:"),
